@@ -308,6 +308,22 @@ func modelBytes(c *Case) ([]byte, bool) {
 	return b.Bytes(), true
 }
 
+// entryIsDirectory: the archive entry handed to gonnx is a directory entry (name ends in "/").
+func entryIsDirectory(c *Case) bool {
+	if c.Reader != "zip-store" && c.Reader != "zip-deflate" && c.Reader != "zip-multi" {
+		return false
+	}
+	zr, err := zip.NewReader(bytes.NewReader(c.Data), int64(len(c.Data)))
+	if err != nil || len(zr.File) == 0 {
+		return false
+	}
+	idx := 0
+	if c.Reader == "zip-multi" {
+		idx = pickEntry(zr)
+	}
+	return strings.HasSuffix(zr.File[idx].Name, "/")
+}
+
 // pickEntry: the first entry whose name ends in ".onnx", else the first entry.
 func pickEntry(zr *zip.Reader) int {
 	for i, f := range zr.File {
@@ -582,6 +598,16 @@ func Check18(c *Case, env *Env) []verdict {
 		}
 		if o.kind == "ok" {
 			return []verdict{{sig: "unsupported-opset-loaded", what: fmt.Sprintf("highest imported opset version is %d but the model was loaded", mx)}}
+		}
+		// The sentinel is owed for a model that IMPORTS an opset the library does not implement. A file that imports
+		// nothing at all (an empty byte string, a directory entry of an archive, a message without opset_import) has no
+		// "highest imported version": it must not load, but a tree may say what is wrong with it in its own words
+		// ("entry is a directory", "model has no graph").
+		if len(mp.GetOpsetImport()) == 0 || entryIsDirectory(c) {
+			if st != nil {
+				st.Probe("no_opset_import_refused")
+			}
+			return nil
 		}
 		if allWell && !errors.Is(o.err, ops.ErrUnsupportedOpsetVersion) {
 			return []verdict{{sig: "unsupported-opset-wrong-error", what: fmt.Sprintf("highest imported opset version is %d, all initializers well-formed, but load failed with %q instead of ErrUnsupportedOpsetVersion", mx, o.err)}}
